@@ -388,6 +388,9 @@ def ite(c, a, b):
     if c[0] == 'not':
         # boolean negation is exact (also for NaN-false comparisons): ite(!c, a, b) = ite(c, b, a)
         return ite(c[1], b, a)
+    if c[0] == 'cmp' and c[1] == 'ne':
+        # `!=` is the exact negation of `==` (also with NaN): one spelling of the choice
+        return ite(mk('cmp', 'eq', c[2]), b, a)
     # under condition c an inner test of the same condition is decided
     if a[0] == 'ite' and a[1] is c:
         a = a[2]
